@@ -14,7 +14,7 @@ import pandas as pd
 
 from .. import core
 
-INDEXES = ["range", "offset", "stepped", "datetime", "period"]
+INDEXES = ["range", "offset", "stepped", "datetime", "period", "dup-datetime"]
 
 
 def make_index(kind, n):
@@ -28,10 +28,14 @@ def make_index(kind, n):
         return pd.date_range("2021-03-01", periods=n, freq="h")
     if kind == "period":
         return pd.period_range("2020-01", periods=n, freq="M")
+    if kind == "dup-datetime":  # sorted, with repeated stamps
+        return pd.DatetimeIndex(pd.to_datetime("2021-03-01") + pd.to_timedelta(np.arange(n) // 2, unit="D"))
     raise ValueError(kind)
 
 
 def make_columns(kind, p):
+    if kind == "dup":  # repeated names: conversions are positional
+        return (["a", "a", "b", "b", "a", "c"] * 2)[:p]
     return list(range(p)) if kind == "default" else [f"c{j}" for j in range(p)][::-1]
 
 
@@ -53,7 +57,7 @@ def gen_intervals(rng, n):
 def gen_hand(rng, nmax):
     n = rng.randint(1, nmax)
     kind = rng.choice(["coll", "cp", "sub"])
-    c = {"kind": kind, "n": n, "index": rng.choice(INDEXES), "columns": rng.choice(["default", "strings"])}
+    c = {"kind": kind, "n": n, "index": rng.choice(INDEXES), "columns": rng.choice(["default", "strings", "dup"])}
     if kind == "coll":
         c["anoms"] = gen_intervals(rng, n)
     elif kind == "cp":
@@ -202,7 +206,7 @@ def gen_det(rng, nmax):
         for i in range(n):
             for j in range(p):
                 X[i][j] += 8 if (i // 3) % 2 == 0 else -8
-    return {"det": det, "n": n, "p": p, "X": X, "index": rng.choice(INDEXES), "columns": rng.choice(["default", "strings"]),
+    return {"det": det, "n": n, "p": p, "X": X, "index": rng.choice(INDEXES), "columns": rng.choice(["default", "strings", "dup"]),
             "m": rng.choice([1, 2, 3]), "M": rng.choice([3, 4, 100]), "ignore": rng.random() < 0.3,
             # the frame is first predicted on while it holds other values, then overwritten in place before transform
             "mutate": rng.random() < 0.3}
